@@ -24,6 +24,10 @@ CLAIMS = {
             "the rest still runs in order; controller side: a steal act needs no outstanding request, asks for a book suffix leaving two, and the reply is "
             "processed as the contract's unsched act, which the ledger theorem accepts",
             "worker-model theorems + contract refinement (Lean 4) ; differential correspondence of worker threads and of the worksteal scheduler"),
+    "C16": ("Lean theorems (load, worksteal): every scheduler call keeps the complete wire log free of anything behind a node's shutdown (hence one shutdown per node), "
+            "keeps the ledger duplicate-free (no index outstanding on two nodes) and in range; run commands are pool prefixes, steal requests book suffixes; "
+            "WorkerController.shutdown is modelled and proved idempotent; other modes: correspondence + wire monitors",
+            "contract invariants NoAfter/SentSync/Nodup/Bounded preserved by every act + refinement (Lean 4) ; differential correspondence of all six schedulers with wire monitors"),
     "C15": ("Lean theorems: mark_test_pending inserts at the front of the pool; per index #completed + #crash-reported = 1 + #re-queued when the ledger is empty; "
             "unsupported modes raise NotImplementedError",
             "ledger invariant with re-queue ghost (Lean 4) ; differential correspondence with markPending ops"),
